@@ -128,6 +128,29 @@ impl Check for C11 {
                 }
             }
         });
+        // (i') invertible transforms with a tiny determinant (only a non-invertible T draws nothing):
+        // user coordinates k times larger under scale 1/k
+        let tiny: Vec<(f32, f32)> = vec![(4096., 4096.), (1., 1e7), (1e7, 1.), (1e4, 1e4), (1e-3, 1e9), (65536., 65536.)];
+        run.bound("fill-under-tiny-determinants", format!("{} paths x {} scales (1/kx, 1/ky) with determinants down to 1e-10 x fill / stroke / fill_rect: same pixels as the pre-transformed path under the identity", ps.len(), tiny.len()));
+        run.par(ps.len(), |pi, l| {
+            for &(kx, ky) in &tiny {
+                let xf: Xf = [1.0 / kx, 0., 0., 1.0 / ky, 0., 0.];
+                let big = spec_from_path(&ps[pi].build().transform(&raqote::Transform::scale(kx, ky)));
+                if big.ops.iter().any(|o| matches!(o, POp::A(..))) {
+                    continue;
+                }
+                let o = Opts::default();
+                let a = Scene { w: S, h: S, dst: Dst::Distinct, ops: vec![Op::SetTransform(xf), Op::Fill(big.clone(), white.clone(), o)] };
+                let pre = spec_from_path(&big.build().transform(&xf_to(&xf)));
+                let b = Scene { w: S, h: S, dst: Dst::Distinct, ops: vec![Op::Fill(pre, white.clone(), o)] };
+                one(run, 100 + pi, l, "fill-under-T-vs-pretransformed-path", a, b, false);
+                // fill_rect (path route) of the surface's middle, in user units
+                let a = Scene { w: S, h: S, dst: Dst::Distinct, ops: vec![Op::SetTransform(xf), Op::FillRect(1.5 * kx, 2.25 * ky, 4.0 * kx, 3.5 * ky, half.clone(), o)] };
+                let pre = spec_from_path(&PathSpec::rect(1.5 * kx, 2.25 * ky, 4.0 * kx, 3.5 * ky).build().transform(&xf_to(&xf)));
+                let b = Scene { w: S, h: S, dst: Dst::Distinct, ops: vec![Op::Fill(pre, half.clone(), o)] };
+                one(run, 100 + pi, l, "fill_rect-under-T-vs-pretransformed-rect", a, b, false);
+            }
+        });
         // (ii) stroke under T vs fill of transformed outline (straight paths; curves depend on the flatten tolerance)
         let styles: Vec<StyleSpec> = vec![
             StyleSpec { width: 1.5, cap: 0, join: 0, miter: 4., dash: vec![], offset: 0. },
@@ -151,14 +174,14 @@ impl Check for C11 {
         // (ii') curved strokes: the stroke under T is the image under T of the user-space stroke (M-REGION of
         // the transformed user-space region), also when T scales strongly up or down
         let cps: Vec<(f32, f32)> = vec![(4., 5.), (17., 3.), (31., 8.), (6., 19.), (18., 17.), (30., 21.), (5., 31.), (19., 29.), (32., 30.)];
-        run.bound("curved-strokes-under-scale", "9^3 quads with user coordinates k times the device ones under scale 1/k, k in {50, 0.02, 7}, width 4k, butt/round".to_string());
+        run.bound("curved-strokes-under-scale", "9^3 quads with user coordinates k times the device ones under scale 1/k, k in {50, 0.02, 7, 0.0025}, width 4k, butt/round".to_string());
         run.par(cps.len() * cps.len(), |s, l| {
             let (a, b) = (cps[s / cps.len()], cps[s % cps.len()]);
             if a == b {
                 return;
             }
             for c in &cps {
-                for k in [50.0f32, 0.02, 7.0] {
+                for k in [50.0f32, 0.02, 7.0, 0.0025] {
                     let xf: Xf = [1.0 / k, 0., 0., 1.0 / k, 0., 0.];
                     let path = PathSpec::new(vec![POp::M(a.0 * k, a.1 * k), POp::Q(b.0 * k, b.1 * k, c.0 * k, c.1 * k)]);
                     let st = StyleSpec { width: 4.0 * k, cap: (s % 2) as u8, join: 1, miter: 4., dash: vec![], offset: 0. };
@@ -166,7 +189,7 @@ impl Check for C11 {
                     l.transitions += 2;
                     l.traces += 1;
                     l.evals += 1;
-                    match super::c04::eval(&path, &st, &xf) {
+                    match super::c04::eval_with(&path, &st, &xf, true) {
                         Ok(stt) => {
                             l.outcome(stt.hash);
                             if stt.inside > 0 {
@@ -380,7 +403,7 @@ impl Check for C11 {
                 match op {
                     Op::SetTransform(t) => xf0 = *t,
                     Op::Stroke(p, st, _, _) if scene.ops.len() <= 2 => {
-                        return Ok(super::c04::eval(p, st, &xf0).err().map(|mut v| {
+                        return Ok(super::c04::eval_with(p, st, &xf0, true).err().map(|mut v| {
                             v.sig = format!("stroke-is-image-of-user-space-stroke/{}", v.sig);
                             v
                         }))
